@@ -1,3 +1,8 @@
 import NTV.Proofs.C19
 #print axioms NTV.C19.inv_full
 #print axioms NTV.C19.zmod_full
+#print axioms NTV.C19.nthRoot_full
+#print axioms NTV.C19.perfectPower_full
+#print axioms NTV.C19.kronecker_full
+#print axioms NTV.C19.kronecker_zero_modulus
+#print axioms NTV.C19.kronecker_decomposition
